@@ -17,13 +17,14 @@ SubDef == << [n |-> "si", kind |-> "i", lo |-> 0,      hi |-> 50, def |-> 7],
              [n |-> "st", kind |-> "T", lo |-> 0,      hi |-> 0,  def |-> FALSE] >>
 SubDefault == [null |-> FALSE, si |-> 7, sf |-> 6, st |-> FALSE, sa |-> <<4, 4>>]
 NullSub == [null |-> TRUE]
-FxDefault == [null |-> FALSE, gain |-> 3, voice |-> << [vol |-> 64], [vol |-> 64] >>]
+FxDefault == [null |-> FALSE, gain |-> 3, level |-> 11, type |-> 0, voice |-> << [vol |-> 64], [vol |-> 64] >>]
 Default == [pc |-> 64, pi |-> 5, pn |-> 0, pf |-> 2, pg |-> 4, pt |-> FALSE, po |-> 1, ps |-> <<97, 98, 99>>, preset |-> 0, dep |-> 10, mode |-> 0, dep2 |-> 1, chain |-> 0, tg |-> FALSE, dep3 |-> 5,
             ai |-> <<3, 3, 3>>, af |-> <<1, 1, 1>>, at |-> <<FALSE, FALSE>>, al |-> <<0, 0, 0, 0, 0, 0, 0, 0>>,
             fx_on |-> FALSE, fx |-> [null |-> TRUE], sub_on |-> TRUE, sub |-> SubDefault,
             subs |-> <<SubDefault, SubDefault>>, palloc |-> FALSE, psub |-> NullSub]
 PresetDefault(p) == CASE p = 0 -> 10 [] p = 1 -> 20 [] OTHER -> 30
 PresetDefault2(p) == CASE p = 0 -> 1 [] p = 1 -> 2 [] OTHER -> 3
+FxLevelDefault(t) == CASE t = 0 -> 11 [] t = 1 -> 22 [] OTHER -> 33
 PresetDefault3(p) == CASE p = 0 -> 5 [] p = 1 -> 6 [] OTHER -> 7
 OptionNames == << <<122, 101, 114, 111>>, <<111, 110, 101>>, <<116, 119, 111>> >>          \* zero one two
 \* a concrete parameter: where it lives, its kind and declared bounds (NoBound = absent)
@@ -44,6 +45,8 @@ Param(addr) ==
     [] addr = "/al0" -> Elem("al", 1, "I", 0, 100) [] addr = "/al1" -> Elem("al", 2, "I", 0, 100) [] addr = "/al2" -> Elem("al", 3, "I", 0, 100) [] addr = "/al3" -> Elem("al", 4, "I", 0, 100)
     [] addr = "/al4" -> Elem("al", 5, "I", 0, 100) [] addr = "/al5" -> Elem("al", 6, "I", 0, 100) [] addr = "/al6" -> Elem("al", 7, "I", 0, 100) [] addr = "/al7" -> Elem("al", 8, "I", 0, 100)
     [] addr = "/fx_on" -> Scalar("fx_on", "T", 0, 0) [] addr = "/fx/gain" -> [where |-> "fx", f |-> "gain", i |-> 0, j |-> 0, kind |-> "i", lo |-> 0, hi |-> 10]
+    [] addr = "/fx/level" -> [where |-> "fx", f |-> "level", i |-> 0, j |-> 0, kind |-> "i", lo |-> 0, hi |-> 100]
+    [] addr = "/fx/type" -> [where |-> "fx", f |-> "type", i |-> 0, j |-> 0, kind |-> "i", lo |-> 0, hi |-> 2]
     [] addr = "/fx/voice0/vol" -> [where |-> "fxv", f |-> "vol", i |-> 1, j |-> 0, kind |-> "i", lo |-> 0, hi |-> 127]
     [] addr = "/fx/voice1/vol" -> [where |-> "fxv", f |-> "vol", i |-> 2, j |-> 0, kind |-> "i", lo |-> 0, hi |-> 127]
     [] addr = "/sub/si" -> InSub("sub", 0, SubDef[1]) [] addr = "/sub/sf" -> InSub("sub", 0, SubDef[2]) [] addr = "/sub/st" -> InSub("sub", 0, SubDef[3])
@@ -52,7 +55,7 @@ Param(addr) ==
     [] addr = "/psub/si" -> InSub("psub", 0, SubDef[1]) [] addr = "/psub/sf" -> InSub("psub", 0, SubDef[2]) [] addr = "/psub/st" -> InSub("psub", 0, SubDef[3])
     [] addr = "/sub/sa0" -> SubElem("sub", 0, 1) [] addr = "/sub/sa1" -> SubElem("sub", 0, 2) [] addr = "/subs0/sa0" -> SubElem("subs", 1, 1) [] addr = "/subs0/sa1" -> SubElem("subs", 1, 2)
     [] addr = "/subs1/sa0" -> SubElem("subs", 2, 1) [] addr = "/subs1/sa1" -> SubElem("subs", 2, 2) [] addr = "/psub/sa0" -> SubElem("psub", 0, 1) [] addr = "/psub/sa1" -> SubElem("psub", 0, 2)
-Addresses == << "/pc", "/pi", "/pn", "/pf", "/pg", "/pt", "/po", "/ps", "/preset", "/dep", "/mode", "/dep2", "/chain", "/tg", "/dep3", "/ai0", "/ai1", "/ai2", "/af0", "/af1", "/af2", "/at0", "/at1", "/al0", "/al1", "/al2", "/al3", "/al4", "/al5", "/al6", "/al7", "/fx_on", "/fx/gain", "/fx/voice0/vol", "/fx/voice1/vol",
+Addresses == << "/pc", "/pi", "/pn", "/pf", "/pg", "/pt", "/po", "/ps", "/preset", "/dep", "/mode", "/dep2", "/chain", "/tg", "/dep3", "/ai0", "/ai1", "/ai2", "/af0", "/af1", "/af2", "/at0", "/at1", "/al0", "/al1", "/al2", "/al3", "/al4", "/al5", "/al6", "/al7", "/fx_on", "/fx/gain", "/fx/level", "/fx/type", "/fx/voice0/vol", "/fx/voice1/vol",
                 "/sub_on", "/sub/si", "/sub/sf", "/sub/st", "/subs0/si", "/subs0/sf", "/subs0/st", "/subs1/si", "/subs1/sf", "/subs1/st",
                 "/palloc", "/psub/si", "/psub/sf", "/psub/st",
                 "/sub/sa0", "/sub/sa1", "/subs0/sa0", "/subs0/sa1", "/subs1/sa0", "/subs1/sa1", "/psub/sa0", "/psub/sa1" >>
@@ -85,7 +88,8 @@ Admits(p, ty) == CASE p.kind = "c" -> ty = "c" [] p.kind \in {"i", "I"} -> ty = 
 \* side effects the application attaches to two of its ports (rChangeCb)
 After(s, addr, changed) ==
   IF addr = "/preset" THEN [s EXCEPT !.dep = PresetDefault(s.preset), !.mode = 0, !.dep2 = PresetDefault2(s.preset), !.chain = 0, !.dep3 = PresetDefault3(s.preset)]   \* a preset message re-initialises its dependants and the mode
-  ELSE IF addr = "/tg" THEN [s EXCEPT !.dep3 = PresetDefault3(s.preset)]
+  ELSE IF addr = "/fx/type" THEN [s EXCEPT !.fx.level = FxLevelDefault(s.fx.type)]
+  ELSE IF addr = "/tg" /\ changed THEN [s EXCEPT !.dep3 = PresetDefault3(s.preset)]      \* (a toggle port runs its change callback only when the value changes)
   ELSE IF addr = "/mode" THEN [s EXCEPT !.dep2 = PresetDefault2(s.preset), !.chain = 0]                                               \* a mode message re-initialises ITS dependants
   ELSE IF addr = "/fx_on" /\ changed THEN [s EXCEPT !.fx = IF s.fx_on THEN FxDefault ELSE NullSub]
   ELSE IF addr = "/palloc" /\ changed THEN [s EXCEPT !.psub = IF s.palloc THEN SubDefault ELSE NullSub]
@@ -99,7 +103,7 @@ EvType(p) == CASE p.kind = "c" -> "c" [] p.kind \in {"i", "I", "o"} -> "i" [] p.
 \* reachable: not below a disabled or null sub-tree
 Reachable(s, p) == CASE p.where \in {"fx", "fxv"} -> s.fx_on /\ ~ s.fx.null [] p.where = "sub" -> s.sub_on [] p.where = "psub" -> s.palloc /\ ~ s.psub.null [] OTHER -> TRUE
 DefaultOf(s, addr) == LET p == Param(addr) IN
-  IF addr = "/dep" THEN PresetDefault(s.preset) ELSE IF addr = "/dep2" THEN PresetDefault2(s.preset) ELSE IF addr = "/dep3" THEN PresetDefault3(s.preset) ELSE GetV(IF p.where = "psub" THEN [Default EXCEPT !.psub = SubDefault] ELSE IF p.where \in {"fx", "fxv"} THEN [Default EXCEPT !.fx = FxDefault] ELSE Default, p)
+  IF addr = "/dep" THEN PresetDefault(s.preset) ELSE IF addr = "/dep2" THEN PresetDefault2(s.preset) ELSE IF addr = "/dep3" THEN PresetDefault3(s.preset) ELSE IF addr = "/fx/level" THEN (IF s.fx.null THEN 11 ELSE FxLevelDefault(s.fx.type)) ELSE GetV(IF p.where = "psub" THEN [Default EXCEPT !.psub = SubDefault] ELSE IF p.where \in {"fx", "fxv"} THEN [Default EXCEPT !.fx = FxDefault] ELSE Default, p)
 \* value as it appears in a savefile line: options by name, everything else as stored
 FileVal(p, v) == IF p.kind = "o" THEN [sym |-> OptionNames[v + 1]] ELSE v
 ScalarAddrs == SelectSeq(Addresses, LAMBDA a : Param(a).where # "arr" /\ Param(a).j = 0)
@@ -125,7 +129,7 @@ ApplyMsg(s, m) == LET p == Param(m.addr) IN SetState(s, m.addr, MsgTy(p, m.v), I
 RECURSIVE ApplyAll(_, _)
 ApplyAll(s, ms) == IF ms = <<>> THEN s ELSE ApplyAll(ApplyMsg(s, Head(ms)), Tail(ms))
 \* a port that another port's default, enablement or declared dependency refers to comes first
-Rank(addr) == IF addr \in {"/preset", "/sub_on", "/palloc", "/tg", "/fx_on"} THEN 0 ELSE IF addr = "/mode" THEN 1 ELSE 2
+Rank(addr) == IF addr \in {"/preset", "/sub_on", "/palloc", "/tg", "/fx_on"} THEN 0 ELSE IF addr \in {"/mode", "/fx/type"} THEN 1 ELSE 2
 RECURSIVE Concat(_)
 Concat(ss) == IF ss = <<>> THEN <<>> ELSE Head(ss) \o Concat(Tail(ss))
 RECURSIVE SetToSeq(_)
